@@ -104,10 +104,7 @@ class Normalizer:
             fn = hit[2]
         if fn is None:
             return None
-        body = [s for s in fn.body if not (isinstance(s, ast.Expr) and isinstance(s.value, ast.Constant))]
-        if len(body) == 1 and isinstance(body[0], ast.Return) and body[0].value is not None:
-            return body[0].value
-        return None
+        return simple_return(fn)
 
     def norm(self, e, env=None, depth=0):
         if env is None:
@@ -159,16 +156,16 @@ class Normalizer:
                 hit = self.P.lookup(self.cls, f.attr)
                 if hit and hit[1] == 'method':
                     fn = hit[2]
-                    body = [s for s in fn.body if not (isinstance(s, ast.Expr) and isinstance(s.value, ast.Constant))]
+                    ret = simple_return(fn)
                     params = [a.arg for a in fn.args.args][1:]
-                    if len(body) == 1 and isinstance(body[0], ast.Return) and len(params) == len(e.args):
+                    if ret is not None and len(params) == len(e.args):
                         # substitute arguments (already normalised in the caller env) into the body
                         if isinstance(env, FrameEnv):
                             inner = FrameEnv(None, {p: (a, env) for p, a in zip(params, e.args)})
                         else:
                             sub = {p: a for p, a in zip(params, e.args)}
                             inner = {**{k: v for k, v in env.items()}, **sub}
-                        return self.norm(body[0].value, inner, depth + 1)
+                        return self.norm(ret, inner, depth + 1)
             return Lin({self.atom(e, env, depth): 1})
         return Lin({self.atom(e, env, depth): 1})
 
@@ -209,7 +206,7 @@ class Normalizer:
             return f'{fn}({", ".join(args)})'
         if isinstance(e, ast.Subscript):
             base = e.value
-            bs = self.atom(base, env, depth) if not isinstance(base, ast.Name) else base.id
+            bs = self.atom(base, env, depth)        # a local alias of a container (`held = self._holdings`) is resolved
             return f'{bs}[{ast.unparse(e.slice)}]'
         if isinstance(e, ast.Attribute):
             if isinstance(e.value, ast.Name) and e.value.id == 'self':
@@ -225,6 +222,26 @@ class Normalizer:
         return ast.unparse(e)
 
 
+
+
+def simple_return(fn):
+    """the value a straight-line function returns -- zero or more `local = expr` definitions (each local defined once, no other
+    statement kind) followed by `return expr` -- with the locals substituted; None for anything else"""
+    body = [s for s in fn.body if not (isinstance(s, ast.Expr) and isinstance(s.value, ast.Constant))]
+    if not body or not isinstance(body[-1], ast.Return) or body[-1].value is None:
+        return None
+    if len(body) == 1:
+        return body[0].value
+    defs = {}
+    params = {a.arg for a in fn.args.args}
+    for st in body[:-1]:
+        if not (isinstance(st, ast.Assign) and len(st.targets) == 1 and isinstance(st.targets[0], ast.Name)):
+            return None
+        nm = st.targets[0].id
+        if nm in defs or nm in params or any(isinstance(x, ast.Call) for x in ast.walk(st.value)):
+            return None         # calls may have effects / must not be duplicated
+        defs[nm] = subst(st.value, defs)
+    return subst(body[-1].value, defs)
 
 
 # ---------------------------------------------------------------------------
